@@ -118,10 +118,10 @@ def hTime (env : Env) (m : Msg) : M Msg :=
   seq (gwSend ⟨m.node, m.child, m.cmd, 0, m.type, dec env.timegm⟩ Gen.bufTime) (pure m)
 
 def hBattery (m : Msg) : M Msg :=
-  bind (requireNode m.node) fun _ =>
+  bind (requireNode m.node) fun node =>
   bind (convertExn (clause Gen.excBattery 0) .invalidMessage (pyRoundFloat m.payload)) fun level =>
   if Gen.minBattery ≤ level ∧ level ≤ Gen.maxBattery then
-    bind (requireNode m.node) fun node => seq (setNode m.node { node with battery := level }) (pure m)
+    seq (setNode m.node { node with battery := level }) (pure m)
   else raise (.lib .invalidMessage)
 
 def hSketchName (m : Msg) : M Msg :=
